@@ -20,8 +20,11 @@ from . import tlc
 
 logging.disable(logging.CRITICAL)
 VERIF = tlc.VERIF
-EVID = os.path.join(VERIF, 'evidence')
-REPLAY = os.path.join(VERIF, 'work', 'replay')
+# runs against a patched copy (PENMAN_SRC set to something else than /repo: sensitivity experiments) never touch the
+# registered evidence files
+_EXPERIMENT = os.path.realpath(os.environ.get('PENMAN_SRC', '/repo')) != os.path.realpath('/repo')
+EVID = os.path.join(VERIF, 'work', 'experiment-evidence') if _EXPERIMENT else os.path.join(VERIF, 'evidence')
+REPLAY = os.path.join(VERIF, 'work', 'experiment-replay.%d' % os.getpid()) if _EXPERIMENT else os.path.join(VERIF, 'work', 'replay')
 
 
 def load_findings():
